@@ -256,6 +256,8 @@ static void explore_program (OrcProgram * p, const char *text, long pidx)
         if (total < 70000) total *= a;
       }
       if (total > 70000) total = 70000;
+      /* resampling: start + n * increment has to stay inside the documented 31-bit position range */
+      for (i = 0; i < p->n_insns; i++) if (op_is_ldres (p->insns[i].opcode) && total > 3000) total = 3000;
       if (total < 64) total = 64;
       for (i = ORC_VAR_P1; i <= ORC_VAR_P8; i++) if (p->vars[i].size) have_param = 1;
       npc = have_param ? (opt.lite ? 2 : opt.thorough ? 8 : 5) : 1;
